@@ -11,6 +11,8 @@ import (
 	"encoding/pem"
 	"errors"
 	"fmt"
+	"github.com/notaryproject/notation-core-go/revocation"
+	"github.com/notaryproject/notation-core-go/revocation/purpose"
 	"os"
 	"path/filepath"
 	"strings"
@@ -43,10 +45,11 @@ type Case struct {
 	NoTSA     bool   // no timestamper in the request
 	Roots     string // "" (the authority's root) | nil | empty: the caller's TSA root pool
 	ViaCtx    bool   // the request went through SignRequest.WithContext before signing
+	Direct    bool   // a caller-written Timestamper (no tspclient HTTP client, no reply validation of its own)
 }
 
 func (c Case) desc() string {
-	return fmt.Sprintf("%s key=%s scheme=%s tsa=%s(len %d) validator=%s timestamper=%v roots=%q via-context=%v", mtName(c.MT), c.Kind, c.Scheme, c.Behaviour, c.TSALen, c.Validator, !c.NoTSA, c.Roots, c.ViaCtx)
+	return fmt.Sprintf("%s key=%s scheme=%s tsa=%s(len %d) validator=%s timestamper=%v roots=%q via-context=%v direct-timestamper=%v", mtName(c.MT), c.Kind, c.Scheme, c.Behaviour, c.TSALen, c.Validator, !c.NoTSA, c.Roots, c.ViaCtx, c.Direct)
 }
 
 func mtName(mt string) string {
@@ -79,8 +82,8 @@ var resultNames = map[string]result.Result{"OK": result.ResultOK, "NonRevokable"
 // behaviour classes: good (must succeed), either (not settled), bad (must fail)
 func classOf(b string, n int) string {
 	switch b {
-	case "granted", "granted-by-the-other-authority":
-		return "good"
+	case "granted", "granted-by-the-other-authority", "ocsp-good", "ocsp-revoked", "ocsp-revoked-inv-far-future", "ocsp-unknown":
+		return "good" // the token is in order; for ocsp-* the revocation answer decides
 	case "only-leaf-included":
 		if n == 2 {
 			return "good"
@@ -94,6 +97,8 @@ func classOf(b string, n int) string {
 
 func validatorOK(v string, n int) string {
 	switch {
+	case v == "real":
+		return "good" // the verdict comes from the responder's answer: see realOK
 	case v == "absent":
 		return "good"
 	case v == "error", v == "wrong-length", v == "empty":
@@ -137,9 +142,24 @@ func execute(r *core.Run, c *Case) {
 			return
 		}
 		req.Timestamper = ts
+		if c.Direct {
+			req.Timestamper = sims.DirectTimestamper{T: tsa}
+			r.Count("caller-written-timestamper", 1)
+		}
 	}
 	var stub *sims.StubValidator
 	switch {
+	case c.Validator == "real":
+		// the library's own revocation validator, configured for timestamping,
+		// asking the responder the authority's leaf names
+		net.Handle(sims.TSAOCSPHost, func(*netsim.Request) netsim.Reply { return tsa.OCSPReply() })
+		v, err := revocation.NewWithOptions(revocation.Options{OCSPHTTPClient: net.Client(), CRLFetcher: sims.NewFetcher(), CertChainPurpose: purpose.Timestamping})
+		if err != nil {
+			r.Inconclusive(err.Error())
+			return
+		}
+		req.TSARevocationValidator = v
+		r.Count("real-revocation-validator", 1)
 	case c.Validator == "absent":
 	case c.Validator == "error":
 		stub = &sims.StubValidator{Err: errors.New("revocation backend down")}
@@ -204,6 +224,12 @@ func execute(r *core.Run, c *Case) {
 		return
 	}
 	bc, vc := classOf(c.Behaviour, c.TSALen), validatorOK(c.Validator, c.TSALen)
+	if c.Validator == "real" && c.Behaviour != "ocsp-good" && strings.HasPrefix(c.Behaviour, "ocsp-") {
+		// the authority's leaf is revoked (whatever invalidity date its CA
+		// publishes: no authentic signing time exists for a TSA certificate) or
+		// of unknown status
+		vc = "bad"
+	}
 	if c.Roots != "" {
 		// whatever the host's own trust store holds, the caller trusts nobody
 		bc = "bad"
@@ -426,6 +452,29 @@ func run(r *core.Run) int {
 			}
 		}
 	}
+	// a caller-written Timestamper: only what the statement demands of the
+	// library itself is at stake (a GRANTED token, chain, trust, revocation) -
+	// imprint and nonce of the reply are the Timestamper's to check
+	for _, mt := range []string{sims.JWS, sims.COSE} {
+		for _, b := range []string{"granted", "granted-with-mods", "status-rejection", "status-waiting", "status-revocation-warning", "granted-without-token",
+			"status-rejection-with-token", "status-waiting-with-token", "status-revocation-warning-with-token", "status-revocation-notification-with-token",
+			"untrusted-root", "leaf-eku-extra", "ca-no-certsign", "signature-broken", "garbage", "transport-error"} {
+			for _, v := range []string{"absent", "vector:OK,OK", "vector:OK,Revoked"} {
+				cases = append(cases, &Case{MT: mt, Kind: "p256", Scheme: "notary.x509", Behaviour: b, TSALen: 2, Validator: v, Direct: true})
+			}
+		}
+	}
+	// the library's own revocation validator asking a responder about the
+	// authority's leaf
+	for _, mt := range []string{sims.JWS, sims.COSE} {
+		for _, b := range []string{"ocsp-good", "ocsp-revoked", "ocsp-revoked-inv-far-future", "ocsp-unknown"} {
+			for _, n := range []int{2, 3} {
+				for _, kind := range []string{"p256", "rsa2048"} {
+					cases = append(cases, &Case{MT: mt, Kind: kind, Scheme: "notary.x509", Behaviour: b, TSALen: n, Validator: "real"})
+				}
+			}
+		}
+	}
 	for i, c := range append([]*Case{}, cases...) {
 		if i%4 == 0 {
 			d := *c
@@ -450,7 +499,9 @@ func run(r *core.Run) int {
 		core.Require{Counter: "timestamp-errors", Why: "no timestamp error was observed"},
 		core.Require{Counter: "no-timestamp-due", Why: "no case without a due timestamp"},
 		core.Require{Counter: "caller-trusts-no-tsa-root", Why: "no case with a nil / empty caller pool"},
-		core.Require{Counter: "request-via-WithContext", Why: "no request went through WithContext"})
+		core.Require{Counter: "request-via-WithContext", Why: "no request went through WithContext"},
+		core.Require{Counter: "caller-written-timestamper", Why: "no request used a caller-written Timestamper"},
+		core.Require{Counter: "real-revocation-validator", Why: "no request used the library's own revocation validator"})
 }
 
 // hostTrustStore makes the authority's clean roots part of the HOST's trust
